@@ -1,11 +1,14 @@
 // C09 harness: the REAL iora::core::ThreadPool under DetSched (harness/detsched), scripted tasks, canonical trace.
 //
 // Input (stdin), one case = a group of lines:
-//   reset <initialSize> <maxSize> <maxQueue> <detached 0|1> <hook 0|1>
-//   body <throws 0|1> <acts>            acts = "-" or comma separated "<mode>:<bodyIndex>", mode e = enqueue,
+//   reset <initialSize> <maxSize> <maxQueue> <mode 0 IMMEDIATE|1 GRACEFUL|2 DETACHED> <hook 0|1>
+//   body <0 returns|1 throws|2 throws and the error handler throws once> <acts>
+//   ctl <op> ...                        script of an additional controller thread (index = order): a= d= stop sd
+//   (body) <acts>            acts = "-" or comma separated "<mode>:<bodyIndex>", mode e = enqueue,
 //                                       t = tryEnqueue, r = enqueueWithResult        (one line per body, index = order)
 //   main <op> ...                       a=<act>  s=<acts> (create a submitter thread)  j (join submitters)
 //                                       d=<timeoutMs> (drain)  stop  sd (shutdown)  x (destroy the pool)
+//                                       c=<ix> (create controller thread ix)  rs (reset() + start())
 //   run <seed> <idleTimeoutMs> <timeoutOneIn> <spuriousOneIn> [<choice>,<choice>,...]
 // Output for `run` (the other lines answer nothing):
 //   ev <tid> <kind> <obj> <detail> <alt> [<tag> <n>] | <expected answer of the Lean acceptor>     (one per DetSched event)
@@ -53,21 +56,28 @@ using iora::core::ThreadPool;
 namespace {
 
 struct Act { char mode; int body; };
-struct Body { bool throws; std::vector<Act> acts; };
+struct Body { bool throws; bool hthrow; std::vector<Act> acts; };
 struct MOp { std::string kind; Act act{'e', 0}; std::vector<Act> script; unsigned long long n = 0; };
 
 struct Case
 {
   std::size_t initialSize = 1, maxSize = 2, maxQueue = 8;
-  bool detached = false, hook = false;
+  int mode = 0;   // 0 IMMEDIATE, 1 GRACEFUL, 2 DETACHED
+  bool hook = false;
   std::vector<Body> bodies;
   std::vector<MOp> main;
+  std::vector<std::vector<MOp>> ctls;
 };
 
 struct TaskError : std::runtime_error
 {
   int id;
   explicit TaskError(int i) : std::runtime_error("task"), id(i) {}
+};
+struct HandlerError : std::runtime_error
+{
+  int id;
+  explicit HandlerError(int i) : std::runtime_error("handler"), id(i) {}
 };
 
 struct Sub { int id; char mode; char res; char why; int tid; long seq; int body; };   // res: a accepted, d/s/f refused; why: reason seen in the pool state
@@ -81,7 +91,7 @@ struct Run
   int nextId = 0;
   long nAcc = 0, nD = 0, nS = 0, nF = 0, nStart = 0, nDone = 0;
   std::vector<Sub> subs;
-  std::vector<int> startCnt, doneCnt, handled;
+  std::vector<int> startCnt, doneCnt, handled, taskBody;
   std::vector<char> outcome;          // n none, v value, x exception
   std::vector<long> startSeq, doneSeq;
   std::vector<int> startTid;
@@ -95,6 +105,7 @@ struct Run
   std::size_t maxThreadsSeen = 0;   // at the harness' own yields
   std::size_t maxThreadsSeenAll = 0; // at EVERY scheduling decision (ds::set_step_hook)
   long samples = 0;
+  std::size_t effMax = 0;             // the pool's _maxSize (after the constructor's clamp)
   const void* hMutex = nullptr; const void* hCfg = nullptr; const void* hCond = nullptr;
   long futureEarly = 0;
 };
@@ -106,7 +117,7 @@ void grow(int id)
   std::size_t n = static_cast<std::size_t>(id) + 1;
   if (R->startCnt.size() < n)
   {
-    R->startCnt.resize(n, 0); R->doneCnt.resize(n, 0); R->handled.resize(n, 0); R->outcome.resize(n, 'n');
+    R->startCnt.resize(n, 0); R->doneCnt.resize(n, 0); R->handled.resize(n, 0); R->taskBody.resize(n, -1); R->outcome.resize(n, 'n');
     R->startSeq.resize(n, -1); R->doneSeq.resize(n, -1); R->startTid.resize(n, -1);
   }
 }
@@ -171,6 +182,7 @@ void doCall(const Act& a)
   vp("call", [&] {
     id = R->nextId++;
     grow(id);
+    R->taskBody[static_cast<std::size_t>(id)] = a.body;
     acceptingAtCall = R->pool->_accepting.load();
     return id;
   });
@@ -233,57 +245,92 @@ void subMain(std::vector<Act> script)
 
 void mlog(int code) { R->mlog.push_back(code); R->mlogSeq.push_back(R->tick++); }
 
+void ctlMain(std::vector<MOp> ops);
+
+// one controller operation (thread 0 or an additional controller thread); `owner` = thread 0
+void execOp(const MOp& op, bool owner)
+{
+  ThreadPool& p = *R->pool;
+  if (op.kind == "a") doCall(op.act);
+  else if (op.kind == "s")
+  {
+    auto script = op.script;
+    R->subThreads.push_back(new std::thread([script] { subMain(script); }));
+  }
+  else if (op.kind == "c")
+  {
+    auto ops = R->c->ctls[static_cast<std::size_t>(op.n)];
+    R->subThreads.push_back(new std::thread([ops] { ctlMain(ops); }));
+  }
+  else if (op.kind == "j")
+  {
+    for (auto* t : R->subThreads) { t->join(); delete t; }
+    R->subThreads.clear();
+  }
+  else if (op.kind == "d")
+  {
+    auto r = p.drain(static_cast<std::uint32_t>(op.n));
+    mlog(r.success ? 1 : (r.message.rfind("Can only", 0) == 0 ? 3 : 2));
+  }
+  else if (op.kind == "stop")
+  {
+    auto r = p.stop();
+    if (r.success) { mlog(7); mlog(4); }
+    else if (r.message.rfind("Drain failed", 0) == 0) mlog(5);
+    else mlog(6);
+  }
+  else if (op.kind == "sd") { p.shutdown(); mlog(7); }
+  else if (op.kind == "rs" && owner)
+  {
+    auto r = p.reset();
+    if (!r.success) mlog(11);
+    else { p.start(); mlog(10); }
+  }
+  else if (op.kind == "x" && owner)
+  {
+    delete R->pool;
+    R->destroyed = true;
+    mlog(8);
+  }
+}
+
+void ctlMain(std::vector<MOp> ops)
+{
+  R->subTids.push_back(ds::self());
+  for (const MOp& op : ops)
+  {
+    vp("m", 0);
+    execOp(op, false);
+  }
+  vp("m", 0);
+}
+
 void mainProgram(long idleMs)
 {
   const Case& c = *R->c;
   R->pool = new ThreadPool(c.initialSize, c.maxSize, std::chrono::milliseconds(idleMs), c.maxQueue,
                            [](std::exception_ptr ep) {
                              try { std::rethrow_exception(ep); }
-                             catch (const TaskError& e) { grow(e.id); R->handled[static_cast<std::size_t>(e.id)]++; }
+                             catch (const TaskError& e)
+                             {
+                               grow(e.id);
+                               R->handled[static_cast<std::size_t>(e.id)]++;
+                               int b = R->taskBody[static_cast<std::size_t>(e.id)];
+                               if (b >= 0 && R->c->bodies[static_cast<std::size_t>(b)].hthrow) throw HandlerError(e.id);
+                             }
+                             catch (const HandlerError& e) { grow(e.id); R->handled[static_cast<std::size_t>(e.id)]++; }
                              catch (...) { R->problems += " foreign-exception-in-handler"; }
                            },
-                           c.detached ? ThreadPool::ShutdownMode::DETACHED : ThreadPool::ShutdownMode::IMMEDIATE);
+                           c.mode == 2 ? ThreadPool::ShutdownMode::DETACHED
+                                       : (c.mode == 1 ? ThreadPool::ShutdownMode::GRACEFUL : ThreadPool::ShutdownMode::IMMEDIATE));
+  R->effMax = R->pool->_maxSize;
   R->hMutex = R->pool->_mutex.native_handle();
   R->hCfg = R->pool->_configMutex.native_handle();
   R->hCond = R->pool->_condition.native_handle();
   for (const MOp& op : c.main)
   {
     vp("m", 0);
-    ThreadPool& p = *R->pool;
-    if (op.kind == "a") doCall(op.act);
-    else if (op.kind == "s")
-    {
-      auto script = op.script;
-      R->subThreads.push_back(new std::thread([script] { subMain(script); }));
-    }
-    else if (op.kind == "j")
-    {
-      for (auto* t : R->subThreads) { t->join(); delete t; }
-      R->subThreads.clear();
-    }
-    else if (op.kind == "d")
-    {
-      auto r = p.drain(static_cast<std::uint32_t>(op.n));
-      mlog(r.success ? 1 : (r.message.rfind("Can only", 0) == 0 ? 3 : 2));
-    }
-    else if (op.kind == "stop")
-    {
-      auto pre = p._lifecycleState.load();
-      auto r = p.stop();
-      if (pre == iora::common::LifecycleState::Running)
-      {
-        if (r.success) { mlog(1); mlog(7); mlog(4); } else { mlog(2); mlog(5); }
-      }
-      else if (pre == iora::common::LifecycleState::Draining) { mlog(7); mlog(4); if (!r.success) R->problems += " stop-failed-from-draining"; }
-      else { mlog(6); if (r.success) R->problems += " stop-succeeded-from-bad-state"; }
-    }
-    else if (op.kind == "sd") { p.shutdown(); mlog(7); }
-    else if (op.kind == "x")
-    {
-      delete R->pool;
-      R->destroyed = true;
-      mlog(8);
-    }
+    execOp(op, true);
   }
   vp("m", 0);
 }
@@ -390,10 +437,13 @@ void runCase(const Case& c, const std::vector<std::string>& t)
     std::string s = "end quiesced=";
     // a join loop completed iff shutdown()/stop()/the destructor's phase 4 ran to the end: code 7 or (8 without an earlier 7)
     bool q = false;
-    for (int m : R->mlog) if (m == 7 || m == 8) q = true;
+    for (int m : R->mlog) { if (m == 7 || m == 8) q = true; if (m == 10) q = false; }
     s += q ? "1" : "0";
     s += " mlog=";
-    for (std::size_t i = 0; i < R->mlog.size(); ++i) { if (i) s += ","; s += std::to_string(R->mlog[i]); }
+    // several controller threads: the log is compared as a multiset (sorted)
+    std::vector<int> sorted(R->mlog);
+    std::sort(sorted.begin(), sorted.end());
+    for (std::size_t i = 0; i < sorted.size(); ++i) { if (i) s += ","; s += std::to_string(sorted[i]); }
     s += " ";
     std::map<int, const Sub*> byId;
     for (const Sub& sb : R->subs) byId[sb.id] = &sb;
@@ -412,7 +462,7 @@ void runCase(const Case& c, const std::vector<std::string>& t)
   }
   // ---- monitor facts (implementation only)
   {
-    std::string s = "mon max=" + std::to_string(c.maxSize) + " maxThreadsSeen=" + std::to_string(std::max(R->maxThreadsSeen, R->maxThreadsSeenAll)) + " samples=" + std::to_string(R->samples) +
+    std::string s = "mon max=" + std::to_string(R->effMax) + " maxThreadsSeen=" + std::to_string(std::max(R->maxThreadsSeen, R->maxThreadsSeenAll)) + " samples=" + std::to_string(R->samples) +
                     " futureEarly=" + std::to_string(R->futureEarly) + " subs=";
     for (std::size_t i = 0; i < R->subs.size(); ++i)
     {
@@ -495,16 +545,17 @@ int main()
       unsigned long long a = 0, b = 0, q = 0;
       vh::parseNat(t[1], a); vh::parseNat(t[2], b); vh::parseNat(t[3], q);
       cur->initialSize = a; cur->maxSize = b; cur->maxQueue = q;
-      cur->detached = t[4] == "1"; cur->hook = t[5] == "1";
+      cur->mode = std::atoi(t[4].c_str()); cur->hook = t[5] == "1";
     }
     else if (t[0] == "body" && t.size() == 3)
     {
-      Body b; b.throws = t[1] == "1";
+      Body b; b.throws = t[1] != "0"; b.hthrow = t[1] == "2";
       if (!parseActs(t[2], b.acts)) { std::puts("bad-op"); continue; }
       cur->bodies.push_back(b);
     }
-    else if (t[0] == "main")
+    else if (t[0] == "main" || t[0] == "ctl")
     {
+      std::vector<MOp> ops;
       for (std::size_t i = 1; i < t.size(); ++i)
       {
         MOp op;
@@ -513,9 +564,10 @@ int main()
         std::string arg = eq == std::string::npos ? "" : t[i].substr(eq + 1);
         if (op.kind == "a") { std::vector<Act> v; parseActs(arg, v); if (v.size() == 1) op.act = v[0]; }
         else if (op.kind == "s") parseActs(arg, op.script);
-        else if (op.kind == "d") vh::parseNat(arg, op.n);
-        cur->main.push_back(op);
+        else if (op.kind == "d" || op.kind == "c") vh::parseNat(arg, op.n);
+        ops.push_back(op);
       }
+      if (t[0] == "main") cur->main = ops; else cur->ctls.push_back(ops);
     }
     else if (t[0] == "run" && t.size() >= 5) runCase(*cur, t);
     else std::puts("bad-op");
